@@ -301,6 +301,10 @@ def r3(ctx):
     idx = util.params_of(sdn.node)[1]
     L, R = "_left_child(%s)" % idx, "_right_child(%s)" % idx
     sums = pathfx.summaries(dcfg)
+    # loop form (`while True: ... break / index = child`): the paths of one iteration that go round again are the
+    # swap-and-continue paths; the paths that leave the function are the ones that stop
+    for lp_ in [n for n in walk_function(sdn.node) if isinstance(n, ast.While)]:
+        sums = sums + pathfx.iteration_summaries(dcfg, lp_)
     ctx.require(len(sums) >= 3, "_sift_down has fewer than three feasible paths")
     lowf = lambda ps, a_, b_, pol: ps.has("self._score_lower(%s, %s)" % (a_, b_), pol)
     n_sw = 0
@@ -448,4 +452,6 @@ RULES = [
     ("C18.R3", "heap restored after every mutation; sift and compare primitives", r3),
     ("C18.R4", "component finder: smaller root stays representative", r4),
 ]
-FLOORS = {"C18.R1": 13, "C18.R2": 10, "C18.R3": 14, "C18.R4": 8}
+# instance floors: about 60% of the instances confirmed by hand on the reference tree -- a rule that suddenly matches far fewer
+# sites fails the run (exit 2); a clean-up that merges two sites into one does not
+FLOORS = {"C18.R1": 7, "C18.R2": 6, "C18.R3": 8, "C18.R4": 4}
